@@ -1,6 +1,83 @@
 """C37 both sides of a bidirectional relationship always agree (engine H).
 
-WORK IN PROGRESS docstring - replaced at the end.
+Property: for any sequence of in-memory mutations performed on either side of
+a back_populates / backref pair (one-to-many, many-to-one, one-to-one,
+many-to-many, including collection replacement and slice operations), B is in
+A's collection exactly when A is B's parent (or in B's collection) - before
+flush, and after flush and reload.
+
+Exploration.  Worlds (vf.worlds.ormworld3): one-to-many with list / set /
+attribute-keyed dict collections, one-to-one (uselist=False), many-to-many
+with list / set collections on both sides, each mapped with back_populates and
+with legacy backref (12 mappings), 2 parents x 2 (thorough o2m: 3) children.
+Modes: ``transient`` (no Session), ``pending`` (added, never flushed),
+``loaded`` (persistent, both sides loaded), ``lazy`` (persistent, every
+attribute expired as after commit(), lazy loaders + autoflush armed),
+``lazy_ah`` (as lazy, relationship(active_history=True) on the scalar sides),
+``lazy_naf`` (as lazy_ah with autoflush off: what an unloaded collection
+yields when loaded is the stale rows merged with the pending backref
+mutations, and must still agree).
+Alphabet: every mutating method / operator of the collection type with every
+argument over the universe (append remove insert pop clear extend += [i]= del[i]
+slice assignment and deletion incl. step slices; add discard remove pop |= -= &=
+^= update *_update; dict [k]= del pop popitem setdefault update), whole
+collection assignment of every small value incl. another owner's live
+collection, scalar set / None / del on the scalar sides, and (lazy modes) reads.
+Engine H replays every history on fresh objects; the canonical state contains
+the in-memory values of both sides, loadedness, committed_state, pending
+collection mutations, lifecycle, hasparent flags, expiry, modified flags and
+the database rows of the open transaction, so dedupe is exact; the in-memory
+and loaded modes are explored until no new state appears within the depth.
+
+Oracle (reference model vf.models.sessref3.RelModel in lock-step):
+ 1. the op raises what the plain Python type raises, else succeeds;
+ 2. *the property*: on every pair whose two sides are loaded, c in p.cs <=> c.p
+    is p (M2M: c in p.cs <=> p in c.ps; O2O: p.c is c <=> c.p is p);
+ 3. each loaded side equals the reference relation (the op took effect; the
+    far side was repaired and nothing else moved);
+ 4. a scalar far side the op had to change but that is still unloaded is read
+    (no autoflush) and must agree; for every new canonical state all sides are
+    read (lazy loads) and must agree with each other and the reference; then
+    flush + commit + reload from the database must agree and equal the
+    in-memory relation before the flush.
+Documented latitude (accepted, counted in the evidence): when a scalar
+reference is replaced while it is *unloaded* and the relationship has no
+active_history, the previous value is not fetched (relationship.active_history
+docs; one-to-one parent side: history deferred to flush), so the previous
+holder cannot be told - such a stale holder is tolerated and nothing is
+claimed below that state.  An op that fails on the plain type is not a
+mutation; below a failed op on persistent objects nothing is claimed.
+
+Scope limits: ``del obj.collection`` (documented only for scalars) and
+dict keys that differ from the keyfunc are not mutations of the property.  A
+list holding the same child twice cannot be stored (one foreign key / one
+association row); only what the remove handler's has_dupes() test exists for is
+checked (the ``dups`` shards: removing one of two occurrences through the
+collection keeps the parent, removing the last clears it); the other
+mutations on such a list do disagree (c.p = None removes one occurrence only,
+pop() / clear() / slice deletion mis-time has_dupes) - counted in the
+evidence (dup_mutations_outside_bound_that_disagree), reported, no verdict.
+Negative-start slice assignment is C38's (known finding there).
+
+Signatures: "<class> <kind>/<coll>: {reference relation of the objects
+involved} <op> -> <first fact>", objects renamed by first appearance; the
+configurations (mapping style / mode) in which the same minimal case fails are
+folded into the signature by finish().
+
+Mutations caught (each in a private copy, VF_REPO=/tmp/wt-orm3):
+ M1 attributes.py emit_backref_from_collection_remove_event: has_dupes() test
+    dropped (always pop the scalar) -> dups shard, "c1 in p1.cs but c1.p is None"
+ M2 attributes.py emit_backref_from_scalar_set_event: old holder only told when
+    the new value is not None -> "cA.p = None -> cA in pA's side"
+ M3 collections.py bulk_replace: no remove events when there are additions ->
+    "pA.cs = [cB] -> pA in cA's side pA but pA's side is [cB]" (o2m and m2m)
+ M4 collections.py list __setitem__: replaced element gets no remove event
+ M5 attributes.py set_committed_value: pending removals not applied when the
+    collection loads -> lazy_naf "cA.p = pB -> cA in pA's side [cA,cB]"
+ M6 attributes.py _ScalarObjectAttributeImpl.set: check_old test inverted
+    (pop never clears) -> "pA.cs.remove(cA) -> pA in cA's side pA"
+ M7 attributes.py _CollectionAttributeImpl.append: pending append on an
+    unloaded collection lost -> lazy_naf "cA.p = pB -> pB's side is []"
 """
 import gc
 import itertools
@@ -29,11 +106,28 @@ META = dict(
     engine="H",
     technique="explicit-state BFS over mutation histories on the real mapped objects, reference relation model in lock-step, canonical-state dedupe",
     design_ref="DESIGN.md §5 C37",
-    level_text="",
-    level_note="",
-    rule="",
-    assumptions=[],
-    bounds=dict(quick="", thorough=""),
+    level_text="Every history of in-memory mutations over the full mutator alphabet of list / set / dict collections and "
+    "scalar references is replayed on fresh real mapped objects for 12 bidirectional mappings (O2M list/set/dict, O2O, "
+    "M2M list/set; back_populates and backref) in 6 object modes (transient, pending, persistent-loaded, persistent-expired "
+    "with lazy loaders and autoflush, the same with active_history, the same with autoflush off). After every operation the agreement invariant is "
+    "evaluated on the real objects, both sides are compared with a plain-Python relation model, and for every new "
+    "canonical state all sides are lazily read, then flushed, committed and reloaded from SQLite and compared again. "
+    "Dedupe is on a canonical state that contains everything later operations or a flush consult, so the result is "
+    "complete for the stated depth (and, where the fixpoint is reached, for every depth).",
+    level_note="Trusted: the 150-line relation model (sessref3.RelModel) and the canonical-state function. Persistent "
+    "start states are manufactured with make_transient_to_detached + set_committed_value (documented APIs) instead of "
+    "a query. Universe of 2 parents x 2-3 children; duplicates in a list only in the dups shards; SQLite only.",
+    rule="case = (mapping, mode, canonical state, op); non-trivial = the op had to change the far side (a backref had to "
+    "fire); outcomes = distinct (op kind, resulting relation, error class)",
+    assumptions=[
+        "single Session, single thread, autoflush on (lazy modes)",
+        "dict collections are used with keys equal to the keyfunc (attribute_keyed_dict('name'))",
+        "a stale holder after replacing an unloaded scalar reference without active_history is documented behaviour",
+    ],
+    bounds=dict(
+        quick="12 mappings x 6 modes; 2x2 objects; reduced alphabet (one op per argument shape); depth 3 (transient, loaded), 2 (pending, lazy modes), 4 (one-to-one); dups shards",
+        thorough="12 mappings x 6 modes; o2m 2x3 objects (2x2 in lazy modes); full alphabet; depth 4 (in-memory, loaded), 3 (lazy modes), 6 (one-to-one); dups shards",
+    ),
 )
 
 CONFIGS = (
@@ -41,13 +135,16 @@ CONFIGS = (
     + [("o2o", None, s) for s in ("bp", "backref")]
     + [("m2m", c, s) for c in ("list", "set") for s in ("bp", "backref")]
 )
-MODES = ("transient", "pending", "loaded", "lazy", "lazy_ah")
+MODES = ("transient", "pending", "loaded", "lazy", "lazy_ah", "lazy_naf")
+LAZY = ("lazy", "lazy_ah", "lazy_naf")
+AH = ("lazy_ah", "lazy_naf")
 PY_ERRORS = (ValueError, KeyError, IndexError)
 
 
-def universe(kind, tier):
+def universe(kind, tier, mode=None):
     if kind == "o2m":
-        return ["p1", "p2"], ["c1", "c2", "c3"] if tier == "thorough" else ["c1", "c2"]
+        # three children where a step is cheap; the lazy modes pay SQL per step
+        return ["p1", "p2"], ["c1", "c2", "c3"] if tier == "thorough" and mode not in LAZY else ["c1", "c2"]
     if kind == "o2o":
         return ["p1", "p2"], ["c1", "c2"]
     return ["p1", "p2"], ["c1", "c2"]
@@ -72,66 +169,74 @@ def shapes(kind, coll):
 # ------------------------------------------------------------------ op alphabet
 
 
-def coll_ops(shape, side, owner, owners, elems, tier, allow_dups):
+def coll_ops(shape, side, owner, owners, elems, tier, basic=False):
+    """every mutating method of the collection type with every argument over
+    ``elems``.  thorough: all of them; quick: near-duplicates (second index,
+    mirrored pairs) are left out; basic (the mirrored side of many-to-many in
+    the quick tier): one op per event path"""
+    full = tier == "thorough"
     ops = []
     C = lambda *m: ops.append(["coll", side, owner, list(m)])  # noqa: E731
-    pairs = [list(p) for p in itertools.permutations(elems, 2)]
+    perms = [list(p) for p in itertools.permutations(elems, 2)]
+    combs = [list(p) for p in itertools.combinations(elems, 2)]
     if shape == "list":
         for e in elems:
             C("append", e)
             C("remove", e)
-            C("insert", 0, e)
-            C("insert", 1, e)
-            C("iadd", [e])
-            C("setitem", 0, e)
-            C("setitem", -1, e)
-            C("setslice", [0, 1, None], [e])
-            C("setslice", [1, None, None], [e])
-        C("pop")
-        C("pop", 0)
-        C("clear")
-        C("delitem", 0)
-        C("delitem", -1)
-        C("delslice", [0, 1, None])
-        C("delslice", [1, None, None])
-        for pr in pairs:
-            C("extend", pr)
-            C("setslice", [0, None, None], pr)
-            C("setslice", [0, 1, None], pr)
-        if allow_dups:
-            for e in elems:
-                C("extend", [e, e])
-        if tier == "thorough":
-            for e in elems:
-                C("setslice", [-1, None, None], [e])
+            if not basic:
+                C("insert", 0, e)
+                C("iadd", [e])
+                C("setitem", 0, e)
+                C("setslice", [0, 1, None], [e])
+            if full:
+                C("insert", 1, e)
+                C("setitem", -1, e)
+                C("setslice", [1, None, None], [e])
                 C("setslice", [0, None, 2], [e])
+        C("pop")
+        C("clear")
+        if not basic:
+            C("pop", 0)
+            C("delitem", 0)
+            C("delslice", [0, 1, None])
+        if full:
+            C("delitem", -1)
+            C("delslice", [1, None, None])
             C("delslice", [0, None, 2])
             C("delslice", [-1, None, None])
-        vals = [[]] + [[e] for e in elems] + pairs
-        if allow_dups:
-            vals += [[e, e] for e in elems]
-        if tier == "thorough" and len(elems) >= 3:
+        for pr in perms if full else combs:
+            if not basic:
+                C("extend", pr)
+                C("setslice", [0, None, None], pr)
+            if full:
+                C("setslice", [0, 1, None], pr)
+        vals = [[]] + [[e] for e in elems] + (perms if full else combs)
+        if full and len(elems) >= 3:
             vals += [list(p) for p in itertools.permutations(elems, 3)][:2]
         for v in vals:
             ops.append(["assign", side, owner, v])
     elif shape == "set":
         for e in elems:
             C("add", e)
-            C("discard", e)
             C("remove", e)
-            C("ior", [e])
-            C("isub", [e])
-            C("iand", [e])
-            C("ixor", [e])
-            C("difference_update", [e])
-            C("intersection_update", [e])
-            C("symmetric_difference_update", [e])
+            if not basic:
+                C("discard", e)
+                C("ior", [e])
+                C("isub", [e])
+                C("iand", [e])
+                C("ixor", [e])
+            if full:
+                C("difference_update", [e])
+                C("intersection_update", [e])
+                C("symmetric_difference_update", [e])
         C("pop")
         C("clear")
-        for pr in itertools.combinations(elems, 2):
-            C("update", list(pr))
-            C("ixor", list(pr))
-        vals = [[]] + [[e] for e in elems] + [list(p) for p in itertools.combinations(elems, 2)]
+        for pr in combs:
+            if not basic:
+                C("update", pr)
+            if full:
+                C("ixor", pr)
+        vals = [[]] + [[e] for e in elems] + combs
         if len(elems) >= 3:
             vals.append(list(elems))
         for v in vals:
@@ -145,9 +250,9 @@ def coll_ops(shape, side, owner, owners, elems, tier, allow_dups):
             C("update", {e: e})
         C("popitem")
         C("clear")
-        for pr in itertools.combinations(elems, 2):
+        for pr in combs:
             C("update", {e: e for e in pr})
-        vals = [{}] + [{e: e} for e in elems] + [{e: e for e in p} for p in itertools.combinations(elems, 2)]
+        vals = [{}] + [{e: e} for e in elems] + [{e: e for e in p} for p in combs]
         for v in vals:
             ops.append(["assign", side, owner, v])
     for other in owners:
@@ -157,7 +262,7 @@ def coll_ops(shape, side, owner, owners, elems, tier, allow_dups):
 
 
 def alphabet(kind, coll, tier, mode):
-    ps, cs = universe(kind, tier)
+    ps, cs = universe(kind, tier, mode)
     sp, sc = shapes(kind, coll)
     ops = []
     for side, owners, elems, shape in (("C", cs, ps, sc), ("P", ps, cs, sp)):
@@ -167,8 +272,8 @@ def alphabet(kind, coll, tier, mode):
                     ops.append(["sset", side, o, t])
                 ops.append(["sdel", side, o])
             else:
-                ops += coll_ops(shape, side, o, owners, elems, tier, allow_dups=False)
-    if mode in ("lazy", "lazy_ah"):
+                ops += coll_ops(shape, side, o, owners, elems, tier, basic=(kind == "m2m" and side == "C" and tier == "quick"))
+    if mode in LAZY:
         for side, owners in (("P", ps), ("C", cs)):
             for o in owners:
                 ops.append(["load", side, o])
@@ -294,8 +399,8 @@ def build(cfg, mode, tier, history):
     kind, coll, style = cfg
     ctx = Ctx()
     ctx.kind, ctx.coll, ctx.mode = kind, coll, mode
-    w = ctx.w = world(kind, coll, style, m2o_active_history=(mode == "lazy_ah"))
-    ctx.pn, ctx.cn = universe(kind, tier)
+    w = ctx.w = world(kind, coll, style, m2o_active_history=(mode in AH))
+    ctx.pn, ctx.cn = universe(kind, tier, mode)
     ctx.sess = ctx.engine = None
     if mode == "transient":
         ctx.objs = {n: w.new(n) for n in ctx.pn + ctx.cn}
@@ -307,7 +412,7 @@ def build(cfg, mode, tier, history):
     else:
         pairs = initial_pairs(kind)
         ctx.engine = w.memory_engine(w.rows_sql(ctx.pn, ctx.cn, pairs))
-        ctx.sess = Session(ctx.engine)
+        ctx.sess = Session(ctx.engine, autoflush=(mode != "lazy_naf"))
         ctx.objs = w.persistent_universe(ctx.sess, ctx.pn, ctx.cn, pairs, loaded=(mode == "loaded"))
     for op in history:
         try:
@@ -319,10 +424,10 @@ def build(cfg, mode, tier, history):
 
 def initial_model(cfg, mode, tier):
     kind, coll, style = cfg
-    pn, cn = universe(kind, tier)
+    pn, cn = universe(kind, tier, mode)
     sp, sc = shapes(kind, coll)
     m = RelModel(sp, sc, pn, cn)
-    if mode in ("loaded", "lazy", "lazy_ah"):
+    if mode in ("loaded",) + LAZY:
         for p, c in initial_pairs(kind):
             m._link("P", p, c)
             m._link("C", c, p)
@@ -421,7 +526,7 @@ def restricted_state(w, view, text):
 
 def make_step(rec, cfg, mode, tier):
     kind, coll, style = cfg
-    w = world(kind, coll, style, m2o_active_history=(mode == "lazy_ah"))
+    w = world(kind, coll, style, m2o_active_history=(mode in AH))
     in_memory = mode in ("transient", "pending")
     cfgname = "%s/%s/%s/%s" % (kind, coll or "-", style, mode)
 
@@ -446,6 +551,32 @@ def make_step(rec, cfg, mode, tier):
         pre = ms.view()
         side, owner = op[1], op[2]
         o_side = RelModel.other(side)
+        if not in_memory and op[0] in ("coll", "assign_from"):
+            # a collection operation first loads the collection (database
+            # order): take the element order from that load, as the op does
+            tgt = owner if op[0] == "coll" else op[3]
+            if pre_impl[side][tgt] == UNLOADED and ms.shape[side] in ("list", "dict"):
+                try:
+                    v = _names(getattr(ctx.objs[tgt], w.p_attr if side == "P" else w.c_attr))
+                except (sa_exc.SQLAlchemyError, AssertionError) as e:
+                    fail("raised", pre, op, "loading raised %s: %s" % (type(e).__name__, str(e)[:80]), hist_)
+                    return None
+                if sorted(members(v)) != sorted(members(ms.val[side][tgt])):
+                    fail("differs", pre, ["load", side, tgt], "%s side of %s reads %s, reference %s" % (side, tgt, render(v), render(ms.val[side][tgt])), hist_)
+                    return None
+                ms = ms.copy()
+                ms.val[side][tgt] = v
+                pre_impl = impl_view(ctx, in_memory)
+                pre = ms.view()
+                if ms.shape[side] == "list":
+                    try:
+                        if has_dups(ms.primary(op)[0]):
+                            # with the real element order the index-based op
+                            # would list a member twice: outside the bound
+                            rec.count("index_ops_skipped_after_load_would_duplicate")
+                            return None
+                    except PY_ERRORS:
+                        pass
         exc = ret = None
         try:
             ret = apply_impl(ctx, op)
@@ -490,7 +621,7 @@ def make_step(rec, cfg, mode, tier):
         skip = set()
         tainted = False
         tolerated_attrs = set()
-        if not in_memory and mode != "lazy_ah":
+        if not in_memory and mode not in AH:
             for s, x, old in m2.displaced:
                 if pre_impl[s][x] != UNLOADED:
                     continue
@@ -640,7 +771,7 @@ def make_step(rec, cfg, mode, tier):
 def enabled_factory(cfg, mode, tier):
     kind, coll, style = cfg
     ops = alphabet(kind, coll, tier, mode)
-    pn, cn = universe(kind, tier)
+    pn, cn = universe(kind, tier, mode)
     maxlen = max(len(pn), len(cn)) + 1
 
     def enabled(ms):
@@ -664,20 +795,122 @@ def enabled_factory(cfg, mode, tier):
     return enabled
 
 
-DEPTH = dict(quick=2, thorough=3)
+DEPTH = {}  # debugging override {tier: depth}
+
+
+def depth_for(tier, kind, mode):
+    if tier in DEPTH:
+        return DEPTH[tier]
+    if kind == "o2o":  # 16-20 ops: deep
+        return 4 if tier == "quick" else 6
+    if mode in LAZY:  # every step pays lazy loads + autoflush
+        return 2 if tier == "quick" else 3
+    if mode == "pending" and tier == "quick":  # differs from transient only by the Session
+        return 2
+    return 3 if tier == "quick" else 4
 
 
 def shards(tier, seed):
     out = []
     for cfg in CONFIGS:
         for mode in MODES:
-            if mode == "lazy_ah" and cfg[0] == "m2m":
+            if mode == "lazy_ah" and cfg[0] == "m2m":  # no scalar side
                 continue
             out.append([list(cfg), mode])
+    for style in ("bp", "backref"):
+        out.append(["dups", style])
     return out
 
 
+# ---------------------------------------------------------------- duplicates sub-world
+
+DUP_BASES = (["c1", "c1"], ["c1", "c2", "c1"], ["c2", "c1", "c1"], ["c1", "c1", "c2"])
+
+
+def dup_ops(base):
+    """collection operations that take away exactly one of the two
+    occurrences of c1 (the case the remove handler's has_dupes() test exists
+    for)"""
+    ops = [["remove", "c1"]]
+    for i, n in enumerate(base):
+        if n == "c1":
+            ops.append(["delitem", i])
+            ops.append(["delslice", [i, i + 1, None]])
+            ops.append(["setitem", i, "c3"])
+            ops.append(["setslice", [i, i + 1, None], ["c3"]])
+    return ops
+
+
+def dup_case(style, base, m, second, rec):
+    """returns problem text or None"""
+    w = world("o2m", "list", style)
+    objs = {n: w.new(n) for n in ("p1", "p2", "c1", "c2", "c3")}
+    p1, c1 = objs["p1"], objs["c1"]
+    p1.cs = [objs[n] for n in base]
+    names = list(base)
+    if c1.p is not p1:
+        return "after p1.cs = %s: c1.p is %r" % (render(base), c1.p)
+    for step_no, mm in enumerate([m] + ([second] if second else [])):
+        coll_apply(p1.cs, mm, objs.__getitem__)
+        coll_apply(names, mm)
+        got = [o.name for o in p1.cs]
+        if got != names:
+            return "p1.cs is %s, plain list gives %s" % (render(got), render(names))
+        for n in ("c1", "c2", "c3"):
+            inside = objs[n] in p1.cs
+            par = objs[n].__dict__.get("p")
+            if inside != (par is p1):
+                return "%s %s p1.cs %s but %s.p is %s" % (n, "in" if inside else "not in", render(got), n, par.name if par is not None else None)
+    return None
+
+
+def run_dups(style, tier, rec):
+    for base in DUP_BASES:
+        for m in dup_ops(base):
+            # second op: indexes refer to the list after the first op
+            for second in [None] + dup_ops(_after(base, m)):
+                rec.transition(1 if second is None else 2)
+                rec.trace()
+                key = (style, tuple(base), repr(m), repr(second))
+                rec.case(key, nontrivial=True)
+                try:
+                    problem = dup_case(style, base, m, second, rec)
+                except PY_ERRORS:
+                    continue
+                rec.state(("dups", tuple(base), repr(m), repr(second)))
+                rec.outcome(("dups", tuple(base), m[0], second and second[0], problem is None))
+                if problem:
+                    t = "p1.cs = %s; p1.cs: %s%s" % (render(base), m, ("; then %s" % (second,)) if second else "")
+                    rec.violation(
+                        "dups o2m/list: %s -> %s @ o2m/list/%s/dups" % (t, problem, style),
+                        problem,
+                        dict(dups=True, style=style, base=base, m=m, second=second),
+                        kind=("dups", m[0], second is not None),
+                    )
+    # outside the bound (counted, no verdict): what the other mutations do
+    # while a child is listed twice
+    w = world("o2m", "list", style)
+    n_out = 0
+    for what in ("c1.p = None", "c1.p = p2", "p1.cs.pop()", "p1.cs.clear()", "p2.cs.append(c1)"):
+        objs = {n: w.new(n) for n in ("p1", "p2", "c1")}
+        p1, p2, c1 = objs["p1"], objs["p2"], objs["c1"]
+        p1.cs = [c1, c1]
+        exec(what, dict(objs))
+        if (c1 in p1.cs) != (c1.p is p1) or (c1 in p2.cs) != (c1.p is p2):
+            n_out += 1
+    rec.count("dup_mutations_outside_bound_that_disagree", n_out)
+
+
+def _after(base, m):
+    names = list(base)
+    coll_apply(names, m)
+    return names
+
+
 def run_shard(shard, tier, rec):
+    if shard[0] == "dups":
+        run_dups(shard[1], tier, rec)
+        return
     cfg, mode = tuple(shard[0]), shard[1]
     gc.disable()
     try:
@@ -686,9 +919,8 @@ def run_shard(shard, tier, rec):
         ctx = build(cfg, mode, tier, ())
         key = repr(("%s/%s/%s/%s" % (cfg[0], cfg[1] or "-", cfg[2], mode), canon(ctx)))
         ctx.close()
-        d = hist.explore(rec, [((), ms, key)], enabled_factory(cfg, mode, tier), step, depth=DEPTH[tier])
-        rec.count("max_depth_reached", 0)
-        rec.counters["max_depth_reached"] = max(rec.counters["max_depth_reached"], d)
+        d = hist.explore(rec, [((), ms, key)], enabled_factory(cfg, mode, tier), step, depth=depth_for(tier, cfg[0], mode))
+        rec.count("depth_reached %s/%s/%s/%s" % (cfg[0], cfg[1] or "-", cfg[2], mode), d)
     finally:
         gc.enable()
         gc.collect()
@@ -714,8 +946,6 @@ def finish(tier, total):
         g["sig"] = "%s [in %s]" % (root, ", ".join(cfgs)) if cfgs else root
         out.append(g)
     total.violations[:] = out
-    if "max_depth_reached" in total.counters:
-        pass
     return None
 
 
@@ -723,6 +953,9 @@ def replay(case):
     from ..core import Rec, StopShard
 
     rec = Rec(ID)
+    if case.get("dups"):
+        problem = dup_case(case["style"], case["base"], case["m"], case["second"], rec)
+        return [("dups o2m/list: %s" % problem, problem)] if problem else []
     cfg, mode, tier = tuple(case["cfg"]), case["mode"], case.get("tier", "quick")
     step = make_step(rec, cfg, mode, tier)
     ms = initial_model(cfg, mode, tier)
